@@ -32,6 +32,71 @@ TRUSTED_BASE = [
 ]
 
 
+MODEL_SKIPPED = "model-skipped"
+MODEL_STALL_S = 240
+
+
+def run_model(cmd, requests, starts=(), timeout=1800, stall=MODEL_STALL_S):
+    """Answers of the model driver, one per request.  The driver is a pure function of its input, but a request can
+    make it take for ever (a generated program that is cheap for the real runtime's worker — which has a time
+    limit — and astronomically expensive for a fuel-bounded evaluator).  When no answer arrives for `stall`
+    seconds, or the driver dies, the request it was working on is answered `model-timeout` / `model-died`, the
+    rest of that history (up to the next request whose first word is in `starts`; the next request when there are
+    no histories) `model-skipped`, and a fresh driver continues from there.  Returns (lines, [(index, why)])."""
+    import selectors
+    import subprocess
+    import threading
+    import time
+    lines, stalls, pos, t_end = [], [], 0, time.time() + timeout
+    while pos < len(requests):
+        data = ("\n".join(requests[pos:]) + "\n").encode()
+        p = subprocess.Popen(cmd, stdin=subprocess.PIPE, stdout=subprocess.PIPE, stderr=subprocess.DEVNULL)
+
+        def feed(proc=p, payload=data):
+            try:
+                proc.stdin.write(payload)
+                proc.stdin.close()
+            except (BrokenPipeError, OSError):
+                pass
+
+        threading.Thread(target=feed, daemon=True).start()
+        sel = selectors.DefaultSelector()
+        sel.register(p.stdout, selectors.EVENT_READ)
+        buf, got, why = b"", 0, None
+        want = len(requests) - pos
+        while got < want:
+            if not sel.select(timeout=min(stall, max(1.0, t_end - time.time()))):
+                why = "timeout"
+                break
+            chunk = os.read(p.stdout.fileno(), 1 << 20)
+            if not chunk:
+                why = "died"
+                break
+            buf += chunk
+            *full, buf = buf.split(b"\n")
+            for l in full:
+                lines.append(l.decode(errors="replace"))
+                got += 1
+        sel.close()
+        p.kill()
+        p.wait()
+        if got >= want:
+            break
+        if len(stalls) >= 5 or time.time() > t_end:
+            raise MachineryError(f"model driver {' '.join(cmd[-1:])}: {len(stalls) + 1} requests without an answer "
+                                 f"(last: request {pos + got + 1}, {why})")
+        k = pos + got
+        stalls.append((k, why))
+        lines.append("model-" + why)
+        nxt = k + 1
+        if starts:
+            while nxt < len(requests) and requests[nxt].split(" ", 1)[0] not in starts:
+                lines.append(MODEL_SKIPPED)
+                nxt += 1
+        pos = nxt
+    return lines, stalls
+
+
 class MachineryError(Exception):
     """The check itself could not run (exit 2, never a VIOLATION line)."""
 
@@ -317,14 +382,16 @@ class Check:
                                 "stderr": err_lines[-5:]})
         model_lines = []
         if os.path.exists(DRIVER):
-            mod = sh([DRIVER, drv_family or family], inp=req_bytes, timeout=timeout)
-            model_lines = mod.stdout.decode(errors="replace").splitlines()
-            if mod.returncode != 0 or len(model_lines) != len(requests):
-                raise MachineryError(f"driver failed on family {family}: rc={mod.returncode} "
-                                     f"{len(model_lines)}/{len(requests)} {mod.stderr.decode(errors='replace')[-500:]}")
+            model_lines, stalls = run_model([DRIVER, drv_family or family], requests, starts, timeout)
+            for (i, why) in stalls:
+                # the model did not answer this request (stalled / died): a broken tie with the request as evidence
+                self.broken.append({"kind": "model-" + why, "family": family, "line": i + 1,
+                                    "request": requests[i][:2000]})
+            if len(model_lines) != len(requests):
+                raise MachineryError(f"driver failed on family {family}: {len(model_lines)}/{len(requests)} answers")
         dis = []
         for i, (a, b) in enumerate(zip(impl_lines, model_lines)):
-            if a != b:
+            if a != b and b != MODEL_SKIPPED:
                 dis.append(i)
         fails = []
         for l in err_lines:
